@@ -773,7 +773,7 @@ def corr_kv2(ck: Ck) -> None:
 
 
 # ------------------------------------------------------------------------------------------------ KeyValues2, nested layout
-IMPORTS_KV2N = IMPORTS_KV2 + ['SV.Fmt.DmxKv2Nested', 'SV.Fmt.DmxKv2Graph']
+IMPORTS_KV2N = IMPORTS_KV2 + ['SV.Fmt.DmxKv2Nested', 'SV.Fmt.DmxKv2Graph', 'SV.Fmt.DmxKv2GraphIso']
 PRE_KV2N = """Import ListNotations. Open Scope N_scope.
 Fixpoint leqb {A} (f : A -> A -> bool) (a b : list A) : bool :=
   match a, b with [], [] => true | x :: a', y :: b' => f x y && leqb f a' b' | _, _ => false end.
@@ -804,7 +804,9 @@ Definition gen_isroot (g : gdoc) : nat -> bool := is_root gen_fold gen_vtnames g
    6 graph level: nest_doc of the exported object graph with the root rule read from the source fails or does not render to the exported text,
    7 an element is written more than once (written_once of the tree of blocks),
    8 the elements the reader model registers (unnest of the parsed tree) are not those of the object graph Element.parse returned
-     (same elements with references by id, same number, the returned element first; cases with every id written) *)
+     (same elements with references by id, same number, the returned element first; cases with every id written),
+   9 the object graph Element.parse returned is not isomorphic to the exported object graph by the renumbering by id
+     (graph_iso_b, proved sound in Fmt/DmxKv2GraphIso.v: element by element equal up to the renumbering of references) *)
 Definition chk3 (c : ndoc * str * option ndoc * str * option ndoc * gdoc * bool * option gdoc) : N := let '(d, text, back, text2, back2, g, cull, gback) := c in
   if negb (ndoc_ok gen_tables gen_fold gen_vtnames d) then 3
   else if str_eqb (rendern_doc gen_tables d) text
@@ -816,7 +818,7 @@ Definition chk3 (c : ndoc * str * option ndoc * str * option ndoc * gdoc * bool 
                              if negb (str_eqb (rendern_doc gen_tables dn) text) then 6
                              else if negb (match nest_doc g (gen_isroot g) false with Some d0 => written_once d0 | None => false end) then 7
                              else match cull, gback, p with
-                                  | false, Some gb, Some dp => if perm_k (unnest dp) (flatten gb) then 0 else 8
+                                  | false, Some gb, Some dp => if perm_k (unnest dp) (flatten gb) then (if graph_iso_b (by_id g gb) g gb then 0 else 9) else 8
                                   | false, Some _, None => 8
                                   | _, _, _ => 0
                                   end
@@ -958,7 +960,8 @@ def corr_kv2_nested(ck: Ck) -> None:
                   f'{len(cases)} documents: Fmt/DmxKv2Nested.v rendern_doc vs export_kv2(flat=False, cull_uuid) text (exact, roots '
                   f'recomputed by the harness), parsen_text of that text vs the block tree of Element.parse; graph level: '
                   f'Fmt/DmxKv2Graph.v nest_doc of the object graph with the generated root rule renders to the same text, every '
-                  f'element written once, unnest of the parsed tree = the parsed object graph: {len(bad)} disagreements')
+                  f'element written once, unnest of the parsed tree = the parsed object graph, the parsed object graph isomorphic to the '
+                  f'exported one by the renumbering by id (graph_iso_b): {len(bad)} disagreements')
     if cases:
         ck.sample({'kv2_nested_case': {'mode': cases[-1][1], 'spec': cases[-1][0]}})
     if bad:
@@ -970,7 +973,8 @@ def corr_kv2_nested(ck: Ck) -> None:
                                                         5: 'model parse of the re-formatted text differs from parse_kv2',
                                                         6: 'graph level: nest_doc with the root rule read from the source does not give the exported text',
                                                         7: 'an element is written more than once',
-                                                        8: 'unnest of the parsed tree is not the object graph Element.parse returned'}.get(code, code)}
+                                                        8: 'unnest of the parsed tree is not the object graph Element.parse returned',
+                                                        9: 'the object graph Element.parse returned is not isomorphic to the exported one by the renumbering by id'}.get(code, code)}
 
 
 
